@@ -8,8 +8,15 @@ Open Scope string_scope.
 (* arithmetic ties at the carrier of the laws (R), up to ring identities *)
 Ltac congr := first [reflexivity | lra | ring | (field; lra) | (progress f_equal; congr)].
 Ltac tie := first [reflexivity | cbv [oadd osub omul odiv oopp omax omin oz Rops]; congr].
-Lemma unsquash_tie (ft : R -> R) sq lo hi x : unsquash_src Rops ft sq lo hi x = unsquash1 Rops ft sq lo hi x.
-Proof. unfold unsquash_src, unsquash1. destruct sq; tie. Qed.
+(* SquashState.unsquash: over the reals (tanh strictly inside (-1, 1)) a final clip to [low, high] is the identity, so the
+   source with or without that guard against float rounding is the model's function *)
+Lemma unsquash_tie sq lo hi x : (lo < hi)%R -> unsquash_src Rops tanh sq lo hi x = unsquash1 Rops tanh sq lo hi x.
+Proof.
+  intros H. pose proof (unsquash1_squash_in_range lo hi x H) as [B1 B2].
+  unfold unsquash_src, unsquash1 in *. destruct sq; [|tie].
+  cbv [oadd osub omul odiv oz omax omin Rops] in *.
+  first [ congr | (rewrite Rmax_left by first [lra | nra]; rewrite Rmin_left by first [lra | nra]; congr) ].
+Qed.
 Lemma normalize_tie (fs : R -> R) cl sm mean var c x : normalize_src Rops fs cl sm mean var c x = normalize1 Rops fs cl sm c mean var x.
 Proof. unfold normalize_src, normalize1, eps8. destruct cl, sm; tie. Qed.
 
